@@ -16,6 +16,12 @@ CHECKS = {
    "DESIGN.md 6 C16",
    "Trusted: VC generator, go/types, solvers; stdlib/xstrings functions uninterpreted; two Unicode/UTF-8 axioms listed in the contract file; panics from division by zero and Min of nothing are template errors by text/template's recovery.",
    "contract-based deductive verification: VC generation over the real function bodies and FuncMap literals against //@ contracts, discharged by z3/cvc5; object identity of direct bindings by go/types"),
+ "C04": ("translation_validation",
+   "Instance-wise (translation validation of the generator's output by deductive proof): on every run mockery is built from the working tree and run over the corpus /verif/corpus (8 interfaces, 20 methods) with the matryer template in the variants {with-resets} and {stub-impl}; for every generated method a contract instantiated from the SOURCE interface's signature and the property text is proved on the generated code for all argument values and all prior call histories: exactly one record is appended holding the arguments in parameter order, earlier records and all other records and Func fields are untouched at the moment of forwarding, MFunc is called exactly once with exactly the arguments and its results are returned unchanged, a nil MFunc panics (stub-impl: the call is recorded, nothing is called, zero values are returned), MCalls returns the records, ResetMCalls/ResetCalls empty exactly the named records; struct layout and type parameters are decided by go/types. Bounded over programs: the statement is proved per corpus instance, the corpus is a sample of interfaces.",
+   "DESIGN.md 5, 6 C04", "Trusted: VC generator, go/types, solvers; mockery's run producing the instances; value semantics of slices (a snapshot returned by MCalls sharing its backing array with later records is not modelled); user callbacks may do anything.", "contract-based deductive verification of the generator's output: contracts instantiated mechanically per generated method from the source signature, VC generation over the generated Go code, z3/cvc5 (instance-wise; corpus-bounded over interfaces)"),
+ "C05": ("translation_validation",
+   "Instance-wise, matryer-style mocks of the corpus: every syntactic read of a record slice is proved to happen while the method's RWMutex is read- or write-locked and every write while it is write-locked (guarded-by obligations), Lock/Unlock/RLock/RUnlock follow the protocol on every path, and no lock is held when the user's function is called or when a method returns. With the lock-discipline meta-theorem (stated, trusted) this gives: no data race on the records, appends are atomic, no call lost or recorded twice, each record built from the arguments of its own call - for all schedules. Bounded over programs by the corpus. Not covered: testify-style mocks (that the generated code adds no shared state of its own), and snapshots aliasing later records after a reset.",
+   "DESIGN.md 5.3, 6 C05", "Trusted: lock-discipline meta-theorem; sync.RWMutex semantics; VC generator, go/types, solvers; value semantics of slices.", "contract-based deductive verification of the generator's output: guarded-by lock-discipline obligations and lock-protocol safety obligations generated on the generated Go code, z3/cvc5 (instance-wise; corpus-bounded over interfaces)"),
  "C07": ("proof",
    "The selection predicate PackageConfig.ShouldGenerateInterface is proved to be the property's iff verbatim (all/listed/include/exclude, regex errors) for all inputs; discovery (NodeVisitor.Visit records exactly interface-like type specs and never enters function bodies; ParsePackages turns exactly package-level named interface types into candidates, checks Lookup results, fails on load errors), the sub-package filter (Go files, ShouldExcludeSubpkg == exists matching regex, error instead of panic), one mock per configs entry (InterfaceConfig.Initialize) and the recursive expansion loop of RootConfig.Initialize (every non-excluded sub-package is added, configured from the recursive package) are proved with loop invariants. Partial: the AST walk (ast.Walk) and the per-interface expansion in RootApp.Run are assumed/covered elsewhere.",
    "DESIGN.md 6 C07",
